@@ -232,3 +232,67 @@ def pointee_size(f, e):
         to = T(f, t.get('to'))
         return to.get('sz'), to.get('s'), x
     return None, None, x
+
+
+# ------------------------------------------------------------------ single-assignment locals
+
+def single_defs(f):
+    """{var id: initialiser} for locals that are initialised at their declaration and never written again
+    (no assignment, compound assignment, ++/--, and their address is not taken): such a local is just a name for its
+    initialiser, so guards and index expressions may be read through it."""
+    cached = f.get('_single_defs')
+    if cached is not None:
+        return cached
+    defs = {}
+    from ir import walk_stmts
+    for s_ in walk_stmts(f.get('body')):
+        if s_.get('k') == 'decl':
+            for v in s_['vars']:
+                tv = T(f, v['t'])
+                # scalars only: a class-type local is an object with identity, not a name for its initialiser
+                if v.get('init') is not None and not v.get('static') and (tv.get('int') or tv.get('ptr') or tv.get('flt')):
+                    defs[v['id']] = v['init']
+    for e in fn_exprs(f):
+        k = e.get('k')
+        tgt = None
+        if k == 'bin' and e.get('op', '').endswith('=') and e['op'] not in ('==', '!=', '<=', '>='):
+            tgt = strip_lv(e['x'])
+        elif k == 'un' and e.get('op') in ('post++', 'post--', 'pre++', 'pre--', '&'):
+            tgt = strip_lv(e['e'])
+        if tgt is not None and tgt.get('k') == 'var':
+            defs.pop(tgt['id'], None)
+    f['_single_defs'] = defs
+    return defs
+
+
+def expand(f, e, depth=0, bools_only=False, stop=()):
+    """e with every single-assignment local replaced by its initialiser (recursively, bounded).
+    bools_only: only boolean locals (named guards such as `const bool hasQuery = ...`) are looked through."""
+    if not isinstance(e, dict) or depth > 6:
+        return e
+    defs = single_defs(f)
+
+    def wanted(v):
+        return v.get('k') == 'var' and v.get('id') in defs and v.get('id') not in stop and v.get('vk') == 'local' and (not bools_only or T(f, v.get('dt') or v.get('t')).get('bool'))
+    if wanted(e):
+        return expand(f, defs[e['id']], depth + 1, bools_only, stop)
+    if e.get('k') == 'cast' and e.get('ck') in ('LValueToRValue', 'NoOp') and wanted(strip_lv(e)):
+        return expand(f, defs[strip_lv(e)['id']], depth + 1, bools_only, stop)
+    out = dict(e)
+    changed = False
+    from ir import EXPR_CHILD_KEYS, EXPR_LIST_KEYS
+    for key in EXPR_CHILD_KEYS:
+        v = e.get(key)
+        if isinstance(v, dict):
+            nv = expand(f, v, depth, bools_only, stop)
+            if nv is not v:
+                out[key] = nv
+                changed = True
+    for key in EXPR_LIST_KEYS:
+        v = e.get(key)
+        if isinstance(v, list):
+            nl = [expand(f, x, depth, bools_only, stop) if isinstance(x, dict) else x for x in v]
+            if any(a is not b for a, b in zip(nl, v)):
+                out[key] = nl
+                changed = True
+    return out if changed else e
